@@ -1448,7 +1448,7 @@ def r_zip(d):
     a gophermap, UTF-8 names and relative/absolute/dangling/cyclic/escaping symlink members is served from disk
     (/T/...) and from the archive (/T.zip/...) in four protocols; the answers must agree once the prefix and the
     timestamps are removed, and an escaping link must not resolve."""
-    import re as _re, shutil, stat as _stat, tempfile, zipfile
+    import glob, re as _re, shutil, stat as _stat, tempfile, zipfile
     import pygopherd.handlers.base as hb
     import pygopherd.handlers.HandlerMultiplexer as hm
     top = tempfile.mkdtemp(prefix="pyvc-zip-", dir="/var/tmp")
@@ -1558,6 +1558,35 @@ def r_zip(d):
                 if norm(a) != norm(b):
                     return {"confirmed": True, "scenario": "selector %r (%s): the archive and the extracted tree answer differently" % (s, pname),
                             "extracted": repr(norm(a)[:300]), "archive": repr(norm(b)[:300])}
+        # the same tree stored in different member orders (a link through a directory link that is stored later)
+        import itertools as _it
+        LT = os.path.join(top, "L")
+        os.makedirs(os.path.join(LT, "realdir"))
+        open(os.path.join(LT, "realdir", "file.txt"), "wb").write(b"content\n")
+        os.symlink("d/file.txt", os.path.join(LT, "z"))
+        os.symlink("realdir", os.path.join(LT, "d"))
+        os.symlink("d", os.path.join(LT, "dd"))
+        members = [("z", "d/file.txt"), ("d", "realdir"), ("dd", "d"), ("realdir/file.txt", None)]
+        for perm in _it.permutations(members):
+            lz = os.path.join(top, "L.zip")
+            for f_ in glob.glob(os.path.join(top, ".cache.pygopherd.zip3.L.zip*")) + [lz]:
+                if os.path.exists(f_):
+                    os.unlink(f_)
+            with zipfile.ZipFile(lz, "w") as z:
+                for n_, dest in perm:
+                    if dest is None:
+                        z.writestr(n_, b"content\n")
+                    else:
+                        zi = zipfile.ZipInfo(n_)
+                        zi.external_attr = (_stat.S_IFLNK | 0o777) << 16
+                        z.writestr(zi, dest)
+            for s in ("", "/z", "/d", "/d/file.txt", "/dd", "/dd/file.txt", "/realdir/file.txt"):
+                a, _l = serve(enc("/L" + s) + b"\r\n")
+                b, _l = serve(enc("/L.zip" + s) + b"\r\n")
+                n += 1
+                if a.replace(b"/L.zip", b"/L") != b.replace(b"/L.zip", b"/L"):
+                    return {"confirmed": True, "scenario": "members stored in the order %s, selector %r: the archive and the extracted tree answer differently" % ([m[0] for m in perm], s),
+                            "extracted": repr(a[:300]), "archive": repr(b[:300])}
         # archives without any file member: empty, and directory members only
         os.makedirs(os.path.join(top, "E"))
         os.makedirs(os.path.join(top, "D", "a", "b"))
